@@ -29,7 +29,12 @@ _HEX = re.compile(r'0x[0-9a-fA-F]+')
 
 
 def clean(s):
-    return _HEX.sub('0x', str(s))[:300]
+    s = _HEX.sub('0x', str(s))
+    sim = K.CUR
+    tmp = sim.data.get('tmp') if sim is not None else None
+    if tmp:
+        s = s.replace(tmp, '<tmp>')
+    return s[:300]
 
 
 # ------------------------------------------------------------------------------
